@@ -7,6 +7,7 @@ from __future__ import annotations
 
 import ast
 import copy
+import re
 
 from vf.gen import glinear, gprog, mutate
 
@@ -24,10 +25,13 @@ TECHNIQUE = "mutation fuzzing with an exception-class / diagnostic-render / span
 RULE = ("mutators: wrong-typed constant or operand, deleted assignment, renamed use, call arity / "
         "keyword / starred args, 60 unsupported statement+expression forms, 23 bad annotations, "
         "operator change, stray break/continue/return, f[T] misuse, nested-function captures, "
-        "non-ASCII comments and tags; plus G-linear ownership mutants. 1-2 mutations per case. "
+        "non-ASCII comments and tags; plus G-linear ownership mutants. 1-2 mutations per case; every "
+        "third case rewrites and re-imports one file path (edit+reload history) and every rendered "
+        "`NN | code` line is compared with line NN of the current file. "
         "distinct = distinct (outcome class, error title, mutation names); non-trivial = rejected "
         "with a Guppy error or crashed")
-FLOORS = {"guppy_errors_rendered": 50, "spans_checked": 50}
+FLOORS = {"guppy_errors_rendered": 50, "spans_checked": 50, "snippet_lines_compared": 50,
+          "cases_on_rewritten_file": 20}
 
 
 def plan(tier, seed):
@@ -73,7 +77,30 @@ def check_spans(err, path, text):
     return len(spans), None
 
 
-def judge_text(ctx, text, muts, entry_names=None):
+GUTTER = re.compile(r"^\s*(\d+) \| ?(.*)$")
+
+
+def check_snippets(rendered, err, text):
+    """Every `NN | code` line of the rendering must show line NN of the file the primary span
+    points into (the renderer may strip common leading indentation, nothing else).
+    Returns (lines compared, problem | None)."""
+    lines = text.split("\n")
+    n = 0
+    for rl in rendered.split("\n"):
+        m = GUTTER.match(rl)
+        if not m:
+            continue
+        no, shown = int(m.group(1)), m.group(2).rstrip()
+        if not 0 < no <= len(lines):
+            return n, f"gutter shows line {no} of a {len(lines)}-line file"
+        real = lines[no - 1].rstrip()
+        n += 1
+        if shown.strip() != real.strip() or not real.endswith(shown.lstrip()):
+            return n, f"line {no} rendered as {shown!r} but the file has {real!r}"
+    return n, None
+
+
+def judge_text(ctx, text, muts, entry_names=None, fixed=None):
     from guppylang.defs import GuppyFunctionDefinition
 
     from vf import ctx as C
@@ -81,7 +108,7 @@ def judge_text(ctx, text, muts, entry_names=None):
     counters = {}
     sets = {}
     try:
-        ld = ctx.load(text)
+        ld = ctx.load(text, fixed=fixed)
     except BaseException as e:
         if C.is_guppy_error(e):
             outcome = _judge_error(ctx, e, None, text, counters, sets)
@@ -146,6 +173,13 @@ def _judge_error(ctx, e, path, text, counters, sets):
         if problem:
             kind = problem.split(" span ")[1].split(" ")[0] if " span " in problem else "?"
             return f"C02:span-outside-source:{kind}:{t}"
+        from guppylang_internals.span import to_span
+
+        if e.error.span is not None and to_span(e.error.span).file == str(path) and text.isascii():
+            n, problem = check_snippets(rendered, e, text)
+            counters["snippet_lines_compared"] = counters.get("snippet_lines_compared", 0) + n
+            if problem:
+                return "C02:rendered-snippet-is-not-the-decorated-source"
     return None
 
 
@@ -170,7 +204,12 @@ def run_case(ctx, rng, idx, params, tier):
         muts = [glinear.mutate(fn, rng) for _ in range(rng.choice([1, 2]))]
         text = glinear.render(fn)
         names = ["main"]
-    rec = judge_text(ctx, text, muts, names)
+    # every third case re-uses one file path: the module is rewritten and re-imported in the same
+    # session (edit + reload), so diagnostics must be cut from the *current* source text
+    fixed = "reloaded" if idx % 3 == 0 else None
+    rec = judge_text(ctx, text, muts, names, fixed=fixed)
+    if fixed:
+        rec.setdefault("counters", {})["cases_on_rewritten_file"] = 1
     rec.setdefault("sets", {})["mutations"] = sorted({m.split(":")[0] for m in muts})
     if idx < 3 and rec["status"] == "held":
         rec["sample"] = {"mutations": muts, "program": text}
